@@ -470,7 +470,18 @@ def classify(ops, res):
     if res.crash:
         m = re.search(r"ERROR: AddressSanitizer: (\S+)|runtime error: ([^\n]*)", res.stderr)
         crash = (m.group(1) or m.group(2)) if m else "crash"
-    blockish = any(o in ("block", "gram", "mixed", "fdist") for o in opk)
+    # the op whose line carries the oracle failure (the named keys below are tied to the op that exposes the listed defect,
+    # so that a different violation on a kernel of the same kind is not classified as that finding)
+    fop = None
+    for o, l in zip(ops, res.impl):
+        if "!oracle" in l:
+            w = o.split(); fop = w[1] if w[0] == "ps" and len(w) > 1 else w[0]
+            break
+    reconfigured = any(o in ("setfactor", "setparams") for o in opk)
+    if fop is not None:
+        blockish = fop in ("block", "gram", "mixed", "fdist") and not reconfigured
+    else:
+        blockish = any(o in ("block", "gram", "mixed", "fdist") for o in opk) and not reconfigured
     # stable keys of the two defects found while building this check (see findings_proposed/C05.md)
     f4_tags = {"block-vs-single", "gram-vs-single", "asymmetric-block", "asymmetric-gram", "normalized-diag",
                "feature-distance-batch", "block-shape", "negative-eigenvalue"}
@@ -479,7 +490,7 @@ def classify(ops, res):
                                              f"({tag or crash}) on ops {ops}")
     if "disc" in kinds and blockish and (crash or tag in f4_tags):
         return "discrete-block-ignores-indices", (f"DiscreteKernel block evaluation ignores the batch contents ({tag or crash}) on ops {ops}")
-    if "mono" in kinds and tag == "input-derivative" and re.search(r"\bmono 1\b", ops[0]):
+    if "mono" in kinds and tag == "input-derivative" and fop == "dcheck" and re.search(r"\bmono 1\b", ops[0]):
         return "monomial-degree1-input-derivative", (f"MonomialKernel(1)::weightedInputDerivative is 0 where <x,z> = 0 "
                                                     f"(finite differences disagree) on ops {ops}")
     if "prod" in kinds and tag in ("product-parameter-count", "parameter-vector-size"):
@@ -490,7 +501,7 @@ def classify(ops, res):
     if crash:
         return f"crash:{crash}:{'+'.join(kinds)}", f"harness aborted ({crash}) on ops {ops}"
     if tag:
-        return f"oracle:{tag}:{'+'.join(kinds)}", f"property oracle failed ({tag}) on ops {ops}"
+        return f"oracle:{tag}:{'+'.join(kinds)}:{fop}", f"property oracle failed ({tag}) at op {fop} on ops {ops}"
     return f"mismatch:{'+'.join(kinds)}:{'+'.join(opk)}", f"model and implementation disagree at line {res.diff_at} of ops {ops}"
 
 
